@@ -32,7 +32,7 @@ PROPS = {
     "C11": dict(n=11, tags=[], fields=[], title="symmetry"),
     "C12": dict(n=12, tags=['N'], fields=["pps"], title="push/pull status"),
     "C13": dict(n=13, tags=['K'], fields=[], title="capture preview"),
-    "C14": dict(n=14, tags=['B'], fields=["prev"], title="earlier boards of the turn"),
+    "C14": dict(n=14, tags=['B', 'L'], fields=["prev"], title="earlier boards of the turn"),
     "C15": dict(n=15, tags=['D', 'R', 'E', '4'], fields=[], title="diagram round trip, parser totality"),
     "C16": dict(n=16, tags=['P', 'Z'], fields=[], title="notation round trip, parser totality"),
     "C17": dict(n=17, tags=['H'], fields=[], title="one-feature hash sensitivity", gens=["tables"]),
@@ -1232,7 +1232,7 @@ MON_DOC = {
     (12, 4): "while a push is pending the rule-only list is not exactly the completions of the square-level rule",
     (13, 1): "preview differs from the model", (13, 2): "a step removed more than one piece", (13, 3): "model preview <> removed piece",
     (13, 4): "implementation's preview <> piece actually removed",
-    (14, 1): "piece_board_for_step <> recorded boards", (14, 2): "recorded boards not extended by the current board",
+    (14, 1): "piece_board_for_step <> recorded boards", (14, 2): "recorded boards not extended by the current board", (14, 3): "clone_from onto another state differs from the source state",
     (15, 1): "re-parsed state differs", (15, 2): "re-parsed state not a clean turn start", (15, 3): "re-printed diagram differs",
     (15, 4): "hash / equality after re-parse", (15, 5): "parser panicked", (15, 6): "printed diagram rejected", (15, 7): "parse outcome differs from the model",
     (16, 3): "accepted text is not the printed form", (16, 4): "printed form differs", (16, 5): "square conversions", (16, 7): "parse outcome differs from the model",
